@@ -53,73 +53,12 @@ func (p *c14P) peekOp(level string) (string, bool) {
 
 func c14Operator(s string) Operator { return operatorMap[s] }
 
-func (p *c14P) expression() *Expression {
-	e := &Expression{Left: p.expr1()}
-	for {
-		op, ok := p.peekOp("OpExpr1")
-		if !ok {
-			return e
-		}
-		p.pos++
-		e.Right = append(e.Right, &OpExpr1{Operator: c14Operator(op), Expr1: p.expr1()})
-	}
-}
+// The functions parse_Expression, parse_Expr1 ... are generated from grammar.go's struct definitions
+// (zz_verif_c14_ladder.go); only the leaves are written here.
 
-func (p *c14P) expr1() *Expr1 {
-	e := &Expr1{Left: p.expr2()}
-	for {
-		op, ok := p.peekOp("OpExpr2")
-		if !ok {
-			return e
-		}
-		p.pos++
-		e.Right = append(e.Right, &OpExpr2{Operator: c14Operator(op), Expr2: p.expr2()})
-	}
-}
+func (p *c14P) parse_ExprTerm() *ExprTerm { return p.exprTerm() }
 
-func (p *c14P) expr2() *Expr2 {
-	e := &Expr2{Left: p.expr3()}
-	if op, ok := p.peekOp("OpExpr3"); ok { // at most one: comparisons do not chain
-		p.pos++
-		e.Right = &OpExpr3{Operator: c14Operator(op), Expr3: p.expr3()}
-	}
-	return e
-}
-
-func (p *c14P) expr3() *Expr3 {
-	e := &Expr3{Left: p.expr4()}
-	for {
-		op, ok := p.peekOp("OpExpr4")
-		if !ok {
-			return e
-		}
-		p.pos++
-		e.Right = append(e.Right, &OpExpr4{Operator: c14Operator(op), Expr4: p.expr4()})
-	}
-}
-
-func (p *c14P) expr4() *Expr4 {
-	e := &Expr4{Left: p.expr5()}
-	for {
-		op, ok := p.peekOp("OpExpr5")
-		if !ok {
-			return e
-		}
-		p.pos++
-		e.Right = append(e.Right, &OpExpr5{Operator: c14Operator(op), Expr5: p.expr5()})
-	}
-}
-
-func (p *c14P) expr5() *Expr5 {
-	e := &Expr5{}
-	if p.pos < len(p.toks) && p.toks[p.pos].kind == "!" {
-		o := c14Operator("!")
-		e.Operator = &o
-		p.pos++
-	}
-	e.Expr6 = &Expr6{Left: p.exprTerm()}
-	return e
-}
+func (p *c14P) expression() *Expression { return p.parse_Expression() }
 
 func (p *c14P) exprTerm() *ExprTerm {
 	if p.pos >= len(p.toks) {
@@ -130,7 +69,7 @@ func (p *c14P) exprTerm() *ExprTerm {
 	switch t.kind {
 	case "(":
 		p.pos++
-		inner := p.expression()
+		inner := p.parse_Expression()
 		if p.pos >= len(p.toks) || p.toks[p.pos].kind != ")" {
 			p.bad = true
 			return &ExprTerm{}
